@@ -1,2 +1,606 @@
 (* Proofs/BreakerProofs.v — C03 / C04 *)
 From FS Require Import Spec.BreakerSpec.
+From Coq Require Import ZifyBool.
+
+Lemma transition_open_half {S} (I : stats_impl S) c a st d now :
+  transition I c (Open a st d) now 2 0 =
+  (HalfOpen (si_new_half I c) (halfopen_capacity c),
+   [ {| ev_tag := 2; ev_old := 1; ev_new := 2; ev_metrics := metrics I a |};
+     {| ev_tag := 3; ev_old := 1; ev_new := 2; ev_metrics := metrics I a |} ]).
+Proof. reflexivity. Qed.
+
+(* ------------------------------------------------------------------ *)
+(* A. Two implementations of the stats interface that agree on what the
+      machine reads drive the machine identically.                      *)
+Section Sim.
+  Context {S1 S2 : Type} (I1 : stats_impl S1) (I2 : stats_impl S2) (R : Z -> S1 -> S2 -> Prop) (c : bcfg).
+  Hypothesis Hobs : forall t a b, R t a b ->
+    si_exec I1 a = si_exec I2 b /\ si_fail I1 a = si_fail I2 b /\ si_succ I1 a = si_succ I2 b.
+  Hypothesis Hrec : forall t a b now v, R t a b -> t <= now -> R now (si_record I1 a now v) (si_record I2 b now v).
+  Hypothesis Hweak : forall t t' a b, R t a b -> t <= t' -> R t' a b.
+  Hypothesis Hnewc : forall t, R t (si_new_closed I1 c) (si_new_closed I2 c).
+  Hypothesis Hnewh : forall t, R t (si_new_half I1 c) (si_new_half I2 c).
+
+  Inductive SR (t : Z) : bstate (S := S1) -> bstate (S := S2) -> Prop :=
+    | SR_closed a b : R t a b -> SR t (Closed a) (Closed b)
+    | SR_open a b st d : R t a b -> SR t (Open a st d) (Open b st d)
+    | SR_half a b p : R t a b -> SR t (HalfOpen a p) (HalfOpen b p).
+
+  Lemma SR_weak t t' s1 s2 : SR t s1 s2 -> t <= t' -> SR t' s1 s2.
+  Proof. intros H Ht. destruct H; constructor; eapply Hweak; eauto. Qed.
+
+  Lemma SR_code t s1 s2 : SR t s1 s2 -> state_code s1 = state_code s2.
+  Proof. intros H; destruct H; reflexivity. Qed.
+
+  Lemma SR_stats t s1 s2 : SR t s1 s2 -> R t (state_stats s1) (state_stats s2).
+  Proof. intros H; destruct H; assumption. Qed.
+
+  Lemma SR_remaining t s1 s2 now : SR t s1 s2 -> remaining_delay s1 now = remaining_delay s2 now.
+  Proof. intros H; destruct H; reflexivity. Qed.
+
+  Lemma R_rates t a b : R t a b -> frate I1 a = frate I2 b /\ srate I1 a = srate I2 b.
+  Proof. intros H. destruct (Hobs _ _ _ H) as (E1 & E2 & E3). unfold frate, srate. rewrite E1, E2, E3. auto. Qed.
+
+  Lemma R_metrics t a b : R t a b -> metrics I1 a = metrics I2 b.
+  Proof.
+    intros H. destruct (Hobs _ _ _ H) as (E1 & E2 & E3). destruct (R_rates _ _ _ H) as (E4 & E5).
+    unfold metrics. rewrite E1, E2, E3, E4, E5. reflexivity.
+  Qed.
+
+  Lemma transition_sim t s1 s2 now tgt d : SR t s1 s2 ->
+    snd (transition I1 c s1 now tgt d) = snd (transition I2 c s2 now tgt d)
+    /\ SR t (fst (transition I1 c s1 now tgt d)) (fst (transition I2 c s2 now tgt d)).
+  Proof.
+    intros H. unfold transition. rewrite <- (SR_code _ _ _ H).
+    destruct (state_code s1 =? tgt); cbn [fst snd]; [auto|].
+    rewrite (R_metrics _ _ _ (SR_stats _ _ _ H)). split; [reflexivity|].
+    destruct (tgt =? 0); [constructor; apply Hnewc|].
+    destruct (tgt =? 1); [constructor; apply (SR_stats _ _ _ H)|].
+    constructor; apply Hnewh.
+  Qed.
+
+  Lemma try_acquire_sim t s1 s2 now : SR t s1 s2 ->
+    let r1 := try_acquire I1 c s1 now in let r2 := try_acquire I2 c s2 now in
+    fst (fst r1) = fst (fst r2) /\ snd r1 = snd r2 /\ SR t (snd (fst r1)) (snd (fst r2)).
+  Proof.
+    intros H. destruct H as [a b H|a b st d H|a b p H]; cbn [try_acquire].
+    - cbn. repeat split. constructor; assumption.
+    - destruct (d <=? now - st); cbn [fst snd].
+      + rewrite !transition_open_half. rewrite (R_metrics _ _ _ H).
+        destruct (0 <? halfopen_capacity c); cbn [fst snd]; repeat split; constructor; apply Hnewh.
+      + repeat split. constructor; assumption.
+    - destruct (0 <? p); cbn [fst snd]; repeat split; constructor; assumption.
+  Qed.
+
+  Lemma check_threshold_sim t s1 s2 now er : SR t s1 s2 ->
+    snd (check_threshold I1 c s1 now er) = snd (check_threshold I2 c s2 now er)
+    /\ SR t (fst (check_threshold I1 c s1 now er)) (fst (check_threshold I2 c s2 now er)).
+  Proof.
+    intros H. pose proof H as H0.
+    destruct H as [a b H|a b st d H|a b p H]; cbn [check_threshold];
+      destruct (Hobs _ _ _ H) as (E1 & E2 & E3); destruct (R_rates _ _ _ H) as (E4 & E5).
+    - rewrite E1, E2, E4. destruct (b_fexec c <=? si_exec I2 b); [|cbn; auto].
+      destruct (_ || _); [apply transition_sim; assumption|cbn; auto].
+    - cbn. auto.
+    - rewrite E1, E2, E3, E4, E5.
+      destruct (if negb (b_sthr c =? 0) then _ else _) as [se fe].
+      destruct se; [apply transition_sim; assumption|].
+      destruct fe; [apply transition_sim; assumption|].
+      cbn [fst snd]. split; [reflexivity|]. constructor; assumption.
+  Qed.
+
+  Lemma record_sim t s1 s2 now v er : SR t s1 s2 -> t <= now ->
+    snd (record I1 c s1 now v er) = snd (record I2 c s2 now v er)
+    /\ SR now (fst (record I1 c s1 now v er)) (fst (record I2 c s2 now v er)).
+  Proof.
+    intros H Ht. unfold record. apply check_threshold_sim.
+    destruct H as [a b H|a b st d H|a b p H]; cbn [state_stats with_stats]; constructor; eapply Hrec; eauto.
+  Qed.
+
+  Lemma bstep_core_sim t s1 s2 now op : SR t s1 s2 -> t <= now ->
+    let r1 := bstep_core I1 c s1 now op in let r2 := bstep_core I2 c s2 now op in
+    fst (fst r1) = fst (fst r2) /\ snd r1 = snd r2 /\ SR now (snd (fst r1)) (snd (fst r2)).
+  Proof.
+    intros H Ht. pose proof (SR_weak _ _ _ _ H Ht) as Hn.
+    destruct op; cbn [bstep_core];
+      try (match goal with |- context [record I1 c s1 now ?v ?er] =>
+             pose proof (record_sim t s1 s2 now v er H Ht) as [Ea Eb];
+             destruct (record I1 c s1 now v er) as [x1 y1]; destruct (record I2 c s2 now v er) as [x2 y2];
+             cbn [fst snd] in *; subst; repeat split; assumption end).
+    - pose proof (try_acquire_sim now s1 s2 now Hn) as (Ea & Eb & Ec). cbv zeta in *.
+      destruct (try_acquire I1 c s1 now) as [[b1 x1] y1]; destruct (try_acquire I2 c s2 now) as [[b2 x2] y2].
+      cbn [fst snd] in *. subst. repeat split; assumption.
+    - pose proof (transition_sim now s1 s2 now 1 (b_delay c) Hn) as [Ea Eb].
+      destruct (transition I1 c s1 now 1 (b_delay c)); destruct (transition I2 c s2 now 1 (b_delay c)).
+      cbn [fst snd] in *. subst. repeat split; assumption.
+    - pose proof (transition_sim now s1 s2 now 2 0 Hn) as [Ea Eb].
+      destruct (transition I1 c s1 now 2 0); destruct (transition I2 c s2 now 2 0).
+      cbn [fst snd] in *. subst. repeat split; assumption.
+    - pose proof (transition_sim now s1 s2 now 0 0 Hn) as [Ea Eb].
+      destruct (transition I1 c s1 now 0 0); destruct (transition I2 c s2 now 0 0).
+      cbn [fst snd] in *. subst. repeat split; assumption.
+    - pose proof (try_acquire_sim now s1 s2 now Hn) as (Ea & Eb & Ec). cbv zeta in *.
+      destruct (try_acquire I1 c s1 now) as [[b1 x1] y1]; destruct (try_acquire I2 c s2 now) as [[b2 x2] y2].
+      cbn [fst snd] in *. subst. destruct b2; [|cbn [fst snd]; repeat split; assumption].
+      set (ok := negb (is_failure (b_fpol c) o)).
+      pose proof (record_sim now x1 x2 now ok (if ok then None else Some (fst o)) Ec ltac:(lia)) as [Fa Fb].
+      destruct (record I1 c x1 now ok _) as [u1 v1]; destruct (record I2 c x2 now ok _) as [u2 v2].
+      cbn [fst snd] in *. subst. repeat split; assumption.
+    - cbn [fst snd]. repeat split. assumption.
+  Qed.
+
+  Lemma brun_sim h : forall t s1 s2, SR t s1 s2 -> bhist_ok t h = true ->
+    brun I1 c s1 h = brun I2 c s2 h.
+  Proof.
+    induction h as [|[now op] h IH]; intros t s1 s2 H Hh; [reflexivity|].
+    cbn [bhist_ok] in Hh. cbn [brun]. unfold bstep.
+    pose proof (bstep_core_sim t s1 s2 now op H ltac:(lia)) as (Ea & Eb & Ec). cbv zeta in *.
+    destruct (bstep_core I1 c s1 now op) as [[v1 x1] e1]; destruct (bstep_core I2 c s2 now op) as [[v2 x2] e2].
+    cbn [fst snd] in *. subst.
+    rewrite (SR_code _ _ _ Ec), (SR_remaining _ _ _ now Ec), (R_metrics _ _ _ (SR_stats _ _ _ Ec)).
+    f_equal. apply (IH now); [assumption|lia].
+  Qed.
+End Sim.
+
+(* ------------------------------------------------------------------ *)
+(* B. countingStats (bit ring) = the last [capacity] results            *)
+
+Lemma nth_set_nth_eq {A} (l : list A) n v d : (n < length l)%nat -> nth n (set_nth n v l) d = v.
+Proof. revert n; induction l as [|x l IH]; intros [|n] H; cbn in *; try lia; auto. apply IH; lia. Qed.
+
+Lemma nth_set_nth_neq {A} (l : list A) n m v d : n <> m -> nth m (set_nth n v l) d = nth m l d.
+Proof. revert n m; induction l as [|x l IH]; intros [|n] [|m] H; cbn; try reflexivity; try lia. apply IH; lia. Qed.
+
+Lemma set_nth_length {A} (l : list A) n v : length (set_nth n v l) = length l.
+Proof. revert n; induction l as [|x l IH]; intros [|n]; cbn; auto. Qed.
+
+Lemma nth_firstn {A} (l : list A) n i d : (i < n)%nat -> nth i (firstn n l) d = nth i l d.
+Proof. revert n i; induction l as [|x l IH]; intros [|n] [|i] H; cbn; try reflexivity; try lia. apply IH; lia. Qed.
+
+Lemma mod_shift_ne a k cap : 0 <= a < cap -> 0 < k < cap -> (a - k) mod cap <> a.
+Proof.
+  intros Ha Hk. destruct (Z_le_gt_dec k a).
+  - rewrite Z.mod_small by lia. lia.
+  - replace (a - k) with (a - k + cap + (-1) * cap) by lia. rewrite Z.mod_add by lia.
+    rewrite Z.mod_small by lia. lia.
+Qed.
+
+Definition results (l : list (Z * bool)) : list bool := map snd l.
+
+Definition cnt (b : bool) (l : list bool) : Z := Z.of_nat (count_occ bool_dec l b).
+
+Lemma count_if_cnt f l : count_if f l = Z.of_nat (length (filter f (results l))).
+Proof. unfold count_if, results. induction l as [|[t v] l IH]; cbn; [reflexivity|]. destruct (f v); cbn; lia. Qed.
+
+Record Rcount (cap : Z) (c : cstats) (log : list (Z * bool)) : Prop := {
+  rc_size : cs_size c = cap; rc_cap : 1 <= cap;
+  rc_len : length (cs_bits c) = Z.to_nat cap;
+  rc_head : 0 <= cs_head c < cap;
+  rc_occ : cs_occ c = Z.of_nat (length (firstn (Z.to_nat cap) log));
+  rc_succ : cs_succ c = count_if (fun b => b) (firstn (Z.to_nat cap) log);
+  rc_fail : cs_fail c = count_if negb (firstn (Z.to_nat cap) log);
+  rc_fill : cs_occ c < cap -> cs_head c = cs_occ c;
+  rc_ring : forall i, (i < length (firstn (Z.to_nat cap) log))%nat ->
+      nth (Z.to_nat ((cs_head c - 1 - Z.of_nat i) mod cap)) (cs_bits c) false
+      = snd (nth i log (0, false)) }.
+
+Lemma Rcount_new cap : 1 <= cap -> Rcount cap (cs_new cap) [].
+Proof.
+  intros H. constructor; cbn; try lia; try reflexivity.
+  - apply repeat_length.
+  - rewrite firstn_nil. reflexivity.
+  - rewrite firstn_nil. reflexivity.
+  - rewrite firstn_nil. reflexivity.
+  - rewrite firstn_nil. cbn. lia.
+Qed.
+
+Lemma count_if_cons f t v l : count_if f ((t, v) :: l) = (if f v then 1 else 0) + count_if f l.
+Proof. unfold count_if. cbn [filter snd]. destruct (f v); cbn [length]; lia. Qed.
+
+Lemma firstn_snoc_last {A} (l : list A) n d : length l = S n -> l = firstn n l ++ [nth n l d].
+Proof.
+  revert n; induction l as [|x l IH]; intros n H; cbn in H; [lia|].
+  destruct n as [|n]; cbn.
+  - destruct l; cbn in H; [reflexivity|lia].
+  - f_equal. apply IH. lia.
+Qed.
+
+Lemma count_if_app f a b : count_if f (a ++ b) = count_if f a + count_if f b.
+Proof. unfold count_if. rewrite filter_app, app_length. lia. Qed.
+
+Definition evicted (c : cstats) : bool := nth (Z.to_nat (cs_head c)) (cs_bits c) false.
+
+Lemma cs_record_proj c v :
+  cs_bits (cs_record c v) = set_nth (Z.to_nat (cs_head c)) v (cs_bits c)
+  /\ cs_size (cs_record c v) = cs_size c
+  /\ cs_head (cs_record c v) = (cs_head c + 1) mod cs_size c
+  /\ cs_occ (cs_record c v) = (if cs_occ c <? cs_size c then cs_occ c + 1 else cs_occ c)
+  /\ cs_succ (cs_record c v) =
+       (if cs_occ c <? cs_size c then cs_succ c else if evicted c then cs_succ c - 1 else cs_succ c)
+       + (if v then 1 else 0)
+  /\ cs_fail (cs_record c v) =
+       (if cs_occ c <? cs_size c then cs_fail c else if evicted c then cs_fail c else cs_fail c - 1)
+       + (if v then 0 else 1).
+Proof.
+  unfold cs_record, evicted. destruct (cs_occ c <? cs_size c);
+    [|destruct (nth (Z.to_nat (cs_head c)) (cs_bits c) false)]; destruct v; cbn; repeat split; lia.
+Qed.
+
+Lemma ring_step cap (bits : list bool) head v (log : list (Z * bool)) now k :
+  1 <= cap -> 0 <= head < cap -> length bits = Z.to_nat cap -> (k < Z.to_nat cap)%nat ->
+  (forall i, (i < k)%nat -> nth (Z.to_nat ((head - 1 - Z.of_nat i) mod cap)) bits false = snd (nth i log (0, false))) ->
+  forall i, (i < S k)%nat ->
+  nth (Z.to_nat (((head + 1) mod cap - 1 - Z.of_nat i) mod cap)) (set_nth (Z.to_nat head) v bits) false
+  = snd (nth i ((now, v) :: log) (0, false)).
+Proof.
+  intros Hcap Hhead Hlen Hk Hring i Hi.
+  replace ((head + 1) mod cap - 1 - Z.of_nat i) with ((head + 1) mod cap - (1 + Z.of_nat i)) by lia.
+  rewrite Zminus_mod_idemp_l.
+  destruct i as [|j]; cbn [nth snd].
+  - replace (head + 1 - (1 + Z.of_nat 0)) with head by lia.
+    rewrite Z.mod_small by lia. apply nth_set_nth_eq. lia.
+  - replace (head + 1 - (1 + Z.of_nat (S j))) with (head - 1 - Z.of_nat j) by lia.
+    rewrite nth_set_nth_neq; [apply Hring; lia|].
+    intros Heq. apply Z2Nat.inj in Heq; try lia.
+    + replace (head - 1 - Z.of_nat j) with (head - (Z.of_nat j + 1)) in Heq by lia.
+      symmetry in Heq. revert Heq. apply mod_shift_ne; lia.
+    + apply Z.mod_pos_bound; lia.
+Qed.
+
+Lemma Rcount_record cap c log now v :
+  Rcount cap c log -> Rcount cap (cs_record c v) ((now, v) :: log).
+Proof.
+  intros [Hsize Hcap Hlen Hhead Hocc Hsucc Hfail Hfill Hring].
+  destruct (cs_record_proj c v) as (Pb & Ps & Ph & Po & Pu & Pf). rewrite Hsize in *.
+  assert (En : exists m, Z.to_nat cap = S m) by (exists (Nat.pred (Z.to_nat cap)); lia).
+  destruct En as [m En]. rewrite En in *.
+  assert (Hw' : firstn (S m) ((now, v) :: log) = (now, v) :: firstn m log) by reflexivity.
+  destruct (cs_occ c <? cap) eqn:Efull.
+  - (* still filling *)
+    assert (Hshort : (length log < S m)%nat) by (rewrite firstn_length in Hocc; lia).
+    assert (Hall : firstn (S m) log = log) by (apply firstn_all2; lia).
+    assert (Hall' : firstn m log = log) by (apply firstn_all2; lia).
+    rewrite Hall in *. specialize (Hfill ltac:(lia)).
+    constructor; rewrite ?En, ?Hw', ?Hall'.
+    + rewrite Ps. reflexivity.
+    + assumption.
+    + rewrite Pb, set_nth_length. assumption.
+    + rewrite Ph. apply Z.mod_pos_bound. lia.
+    + rewrite Po. cbn [length]. lia.
+    + rewrite Pu, count_if_cons. lia.
+    + rewrite Pf, count_if_cons. destruct v; cbn [negb]; lia.
+    + rewrite Po, Ph. intros Hlt. rewrite Z.mod_small by lia. lia.
+    + rewrite Pb, Ph. cbn [length]. apply ring_step; try lia; assumption.
+  - (* full: the entry at head is the oldest of the window and is overwritten *)
+    assert (Hlong : (S m <= length log)%nat) by (rewrite firstn_length in Hocc; lia).
+    assert (Hlenw : length (firstn (S m) log) = S m) by (rewrite firstn_length; lia).
+    assert (Hev : evicted c = snd (nth m log (0, false))).
+    { unfold evicted. specialize (Hring m ltac:(lia)).
+      replace (cs_head c - 1 - Z.of_nat m) with (cs_head c + (-1) * cap) in Hring by lia.
+      rewrite Z.mod_add, Z.mod_small in Hring by lia. exact Hring. }
+    assert (Hsplit : firstn (S m) log = firstn m log ++ [nth m log (0, false)]).
+    { rewrite (firstn_snoc_last (firstn (S m) log) m (0, false) Hlenw) at 1.
+      rewrite firstn_firstn, Nat.min_l by lia. rewrite nth_firstn by lia. reflexivity. }
+    rewrite Hsplit in Hsucc, Hfail. rewrite count_if_app in Hsucc, Hfail.
+    destruct (nth m log (0, false)) as [te ve] eqn:Ee. cbn [snd] in Hev.
+    rewrite count_if_cons in Hsucc, Hfail. unfold count_if in Hsucc at 2. unfold count_if in Hfail at 2.
+    cbn [filter length] in Hsucc, Hfail.
+    assert (Hlenm : length (firstn m log) = m) by (rewrite firstn_length; lia).
+    constructor; rewrite ?En, ?Hw'.
+    + rewrite Ps. reflexivity.
+    + assumption.
+    + rewrite Pb, set_nth_length. assumption.
+    + rewrite Ph. apply Z.mod_pos_bound. lia.
+    + rewrite Po. cbn [length]. lia.
+    + rewrite Pu, count_if_cons, Hev. destruct ve; cbn [negb] in *; lia.
+    + rewrite Pf, count_if_cons, Hev. destruct ve, v; cbn [negb] in *; lia.
+    + rewrite Po. lia.
+    + rewrite Pb, Ph. cbn [length]. rewrite Hlenm. apply ring_step; try lia; try assumption.
+      intros i Hi. apply Hring. lia.
+Qed.
+
+(* ------------------------------------------------------------------ *)
+(* C. For count-based configurations the code's breaker = the documented machine *)
+
+Definition Rc (t : Z) (st : stats) (a : astats) : Prop :=
+  match st, a_kind a with
+  | SC c, WCount cap => Rcount cap c (a_log a)
+  | _, _ => False
+  end.
+
+Lemma Rc_obs t st a : Rc t st a ->
+  si_exec conc_impl st = si_exec abs_impl a /\ si_fail conc_impl st = si_fail abs_impl a
+  /\ si_succ conc_impl st = si_succ abs_impl a.
+Proof.
+  unfold Rc. destruct st as [c|ts]; [|tauto]. destruct a as [[cap|n] log]; cbn [a_kind a_log]; [|tauto].
+  intros H. cbn [conc_impl abs_impl si_exec si_fail si_succ st_exec st_fail st_succ]. unfold a_window. cbn [a_kind a_log].
+  destruct H. repeat split; assumption.
+Qed.
+
+Lemma Rc_rec t st a now v : Rc t st a -> t <= now ->
+  Rc now (si_record conc_impl st now v) (si_record abs_impl a now v).
+Proof.
+  unfold Rc. destruct st as [c|ts]; [|tauto]. destruct a as [[cap|n] log]; cbn [a_kind a_log]; [|tauto].
+  intros H _. cbn [conc_impl abs_impl si_record st_record a_kind a_log]. apply Rcount_record. exact H.
+Qed.
+
+Theorem counting_breaker_refines_windows c h :
+  bcfg_ok c = true -> b_fperiod c = 0 -> bhist_ok 0 h = true ->
+  cb_run c h = spec_brun c h.
+Proof.
+  intros Hok Hper Hh. unfold cb_run, spec_brun.
+  unfold bcfg_ok in Hok. repeat (apply andb_true_iff in Hok; destruct Hok as [Hok ?]).
+  apply (brun_sim conc_impl abs_impl Rc c Rc_obs Rc_rec) with (t := 0).
+  - intros t t' a b HR _. exact HR.
+  - intros t. cbn [conc_impl abs_impl si_new_closed]. rewrite Hper. cbn [Z.eqb negb].
+    unfold Rc. cbn [a_kind a_log]. apply Rcount_new. lia.
+  - intros t. cbn [conc_impl abs_impl si_new_half]. unfold Rc. cbn [a_kind a_log]. apply Rcount_new. lia.
+  - unfold cb_init, spec_init, new_closed. constructor.
+    cbn [conc_impl abs_impl si_new_closed]. rewrite Hper. cbn [Z.eqb negb].
+    unfold Rc. cbn [a_kind a_log]. apply Rcount_new. lia.
+  - exact Hh.
+Qed.
+
+(* ------------------------------------------------------------------ *)
+(* D. timedStats: the running summary is the sum of the ten buckets      *)
+
+Definition bsum (bs : list (Z * Z)) : Z * Z :=
+  fold_right (fun b acc => (fst b + fst acc, snd b + snd acc)) (0, 0) bs.
+
+Lemma bsum_set_nth bs idx v : (idx < length bs)%nat ->
+  bsum (set_nth idx v bs) =
+  (fst (bsum bs) - fst (nth idx bs (0, 0)) + fst v, snd (bsum bs) - snd (nth idx bs (0, 0)) + snd v).
+Proof.
+  revert idx; induction bs as [|b bs IH]; intros [|idx] H; cbn [length] in H; try lia.
+  - cbn. f_equal; lia.
+  - cbn [set_nth nth bsum fold_right]. fold (bsum bs). fold (bsum (set_nth idx v bs)).
+    rewrite IH by lia. cbn [fst snd]. f_equal; lia.
+Qed.
+
+Definition ts_consistent (t : tstats) : Prop := length (ts_buckets t) = 10%nat /\ ts_sum t = bsum (ts_buckets t).
+
+Lemma ts_expire_consistent n : forall bs sum head i,
+  length bs = 10%nat -> sum = bsum bs ->
+  let '(bs', sum') := ts_expire bs sum head i n in length bs' = 10%nat /\ sum' = bsum bs'.
+Proof.
+  induction n as [|n IH]; intros bs sum head i Hl Hs; cbn [ts_expire]; [auto|].
+  apply IH.
+  - rewrite set_nth_length. exact Hl.
+  - rewrite bsum_set_nth.
+    + subst sum. cbn [fst snd]. f_equal; lia.
+    + rewrite Hl. pose proof (Z.mod_pos_bound (head + i + 1) bucket_count ltac:(unfold bucket_count; lia)).
+      unfold bucket_count in *. lia.
+Qed.
+
+Lemma ts_current_consistent t now : ts_consistent t -> ts_consistent (ts_current t now).
+Proof.
+  intros [Hl Hs]. unfold ts_current. destruct (ts_head t <? now / ts_nanos t); [|split; assumption].
+  pose proof (ts_expire_consistent (Z.to_nat (Z.min bucket_count (now / ts_nanos t - ts_head t)))
+                (ts_buckets t) (ts_sum t) (ts_head t) 0 Hl Hs) as H.
+  destruct (ts_expire _ _ _ _ _) as [bs' sum']. exact H.
+Qed.
+
+Theorem timed_stats_summary_is_bucket_sum t now v : ts_consistent t -> ts_consistent (ts_record t now v).
+Proof.
+  intros H. apply (ts_current_consistent t now) in H. destruct H as [Hl Hs].
+  unfold ts_record. set (t' := ts_current t now) in *.
+  split; cbn [ts_buckets ts_sum].
+  - rewrite set_nth_length. exact Hl.
+  - rewrite bsum_set_nth.
+    + rewrite Hs. destruct v; cbn [fst snd]; f_equal; lia.
+    + rewrite Hl. pose proof (Z.mod_pos_bound (ts_head t') bucket_count ltac:(unfold bucket_count; lia)).
+      unfold bucket_count in *. lia.
+Qed.
+
+(* the documented time window: older than the period never counts, the most recent nine slices always do *)
+Lemma timed_window_documented nanos tnew v log t b :
+  1 <= nanos -> t <= tnew ->
+  let a := {| a_kind := WTimed nanos; a_log := (tnew, v) :: log |} in
+  In (t, b) ((tnew, v) :: log) ->
+  (10 * nanos <= tnew - t -> ~ In (t, b) (a_window a))
+  /\ (tnew - t < 9 * nanos -> In (t, b) (a_window a)).
+Proof.
+  intros Hn Ht a Hin. unfold a_window, a. cbn [a_kind a_log]. split; intros H.
+  - intros Hf. apply filter_In in Hf. destruct Hf as [_ Hf]. cbn [fst] in Hf.
+    assert (t / nanos <= tnew / nanos - 10).
+    { replace (tnew / nanos - 10) with ((tnew + (-10) * nanos) / nanos) by (rewrite Z.div_add by lia; lia).
+      apply Z.div_le_mono; lia. }
+    unfold bucket_count in Hf. lia.
+  - apply filter_In. split; [exact Hin|]. cbn [fst].
+    assert (tnew / nanos - 9 <= t / nanos).
+    { replace (tnew / nanos - 9) with ((tnew + (-9) * nanos) / nanos) by (rewrite Z.div_add by lia; lia).
+      apply Z.div_le_mono; lia. }
+    unfold bucket_count. lia.
+Qed.
+
+(* ------------------------------------------------------------------ *)
+(* E. the transition rules (any stats implementation)                   *)
+Section Rules.
+  Context {S : Type} (I : stats_impl S) (c : bcfg).
+
+  (* open for exactly the delay *)
+  Theorem open_for_exactly_delay a st d now :
+    1 <= halfopen_capacity c ->
+    (now - st < d ->
+       try_acquire I c (Open a st d) now = (false, Open a st d, [])
+       /\ remaining_delay (Open a st d) now = d - (now - st))
+    /\ (d <= now - st ->
+       fst (fst (try_acquire I c (Open a st d) now)) = true
+       /\ snd (fst (try_acquire I c (Open a st d) now)) = HalfOpen (si_new_half I c) (halfopen_capacity c - 1)
+       /\ remaining_delay (Open a st d) now = 0).
+  Proof.
+    intros Hcap. split; intros H; cbn [try_acquire remaining_delay].
+    - destruct (d <=? now - st) eqn:E; [lia|]. split; [reflexivity|lia].
+    - destruct (d <=? now - st) eqn:E; [|lia]. rewrite transition_open_half.
+      destruct (0 <? halfopen_capacity c) eqn:E2; [|lia]. cbn [fst snd]. repeat split. lia.
+  Qed.
+
+  (* a closed breaker opens exactly when the configured threshold over its window is met *)
+  Theorem closed_opens_iff st now er :
+    state_code (fst (check_threshold I c (Closed st) now er)) = 1 <->
+    (b_fexec c <= si_exec I st /\
+     ((b_frate c <> 0 /\ b_frate c <= frate I st) \/ (b_frate c = 0 /\ b_fthr c <= si_fail I st))).
+  Proof.
+    cbn [check_threshold].
+    destruct (b_fexec c <=? si_exec I st) eqn:E1; [|cbn; lia].
+    destruct (_ || _) eqn:E2.
+    - cbn. split; [intros _|reflexivity]. lia.
+    - cbn. split; [lia|]. intros H. lia.
+  Qed.
+
+  (* events: every transition reports old <> new, the listener matching the new state fires
+     first and the generic one second, both with the same metrics; consecutive events chain *)
+  Fixpoint events_path (code : Z) (evs : list bevent) : option Z :=
+    match evs with
+    | [] => Some code
+    | e1 :: e2 :: rest =>
+        if (ev_old e1 =? code) && (ev_old e2 =? code) && negb (ev_new e1 =? code)
+           && (ev_new e2 =? ev_new e1) && (ev_tag e1 =? ev_new e1) && (ev_tag e2 =? 3)
+           && (0 <=? ev_new e1) && (ev_new e1 <=? 2)
+        then events_path (ev_new e1) rest else None
+    | _ => None
+    end.
+
+  Lemma events_path_app_n n : forall code evs1 evs2 mid, (length evs1 <= n)%nat ->
+    events_path code evs1 = Some mid -> events_path code (evs1 ++ evs2) = events_path mid evs2.
+  Proof.
+    induction n as [|n IH]; intros code evs1 evs2 mid Hl H.
+    - destruct evs1; cbn in Hl; [|lia]. cbn in H. injection H as ->. reflexivity.
+    - destruct evs1 as [|e1 [|e2 rest]]; cbn [events_path app] in *; try discriminate.
+      + injection H as ->. reflexivity.
+      + destruct (_ && _); [|discriminate]. apply IH; [cbn in Hl; lia|exact H].
+  Qed.
+
+  Lemma events_path_app code evs1 evs2 mid :
+    events_path code evs1 = Some mid -> events_path code (evs1 ++ evs2) = events_path mid evs2.
+  Proof. apply (events_path_app_n (length evs1)). lia. Qed.
+
+  Lemma transition_path s now tgt d : 0 <= tgt <= 2 ->
+    events_path (state_code s) (snd (transition I c s now tgt d)) = Some (state_code (fst (transition I c s now tgt d))).
+  Proof.
+    intros Ht. unfold transition. destruct (state_code s =? tgt) eqn:E; cbn [fst snd events_path]; [reflexivity|].
+    cbn [ev_old ev_new ev_tag]. rewrite !Z.eqb_refl. rewrite Z.eqb_sym, E.
+    replace (0 <=? tgt) with true by lia. replace (tgt <=? 2) with true by lia. cbn [andb negb].
+    f_equal. destruct (tgt =? 0) eqn:E0; [cbn; lia|]. destruct (tgt =? 1) eqn:E1; cbn; lia.
+  Qed.
+
+  Lemma check_threshold_path s now er :
+    events_path (state_code s) (snd (check_threshold I c s now er)) = Some (state_code (fst (check_threshold I c s now er))).
+  Proof.
+    destruct s as [st|st a b|st p]; cbn [check_threshold].
+    - destruct (b_fexec c <=? si_exec I st); [|reflexivity].
+      destruct (_ || _); [apply transition_path; lia|reflexivity].
+    - reflexivity.
+    - destruct (if negb (b_sthr c =? 0) then _ else _) as [se fe].
+      destruct se; [apply transition_path; lia|]. destruct fe; [apply transition_path; lia|reflexivity].
+  Qed.
+
+  Lemma record_path s now v er :
+    events_path (state_code s) (snd (record I c s now v er)) = Some (state_code (fst (record I c s now v er))).
+  Proof.
+    unfold record. rewrite <- check_threshold_path. f_equal. destruct s; reflexivity.
+  Qed.
+
+  Lemma try_acquire_path s now :
+    events_path (state_code s) (snd (try_acquire I c s now)) = Some (state_code (snd (fst (try_acquire I c s now)))).
+  Proof.
+    destruct s as [st|st a b|st p]; cbn [try_acquire].
+    - reflexivity.
+    - destruct (b <=? now - a); [|reflexivity]. rewrite transition_open_half.
+      destruct (0 <? halfopen_capacity c); reflexivity.
+    - destruct (0 <? p); reflexivity.
+  Qed.
+
+  Theorem step_events_form_path s now op :
+    events_path (state_code s) (snd (bstep_core I c s now op)) = Some (state_code (snd (fst (bstep_core I c s now op)))).
+  Proof.
+    destruct op; cbn [bstep_core];
+      try (match goal with |- context [record I c s now ?v ?er] =>
+             pose proof (record_path s now v er) as H; destruct (record I c s now v er); exact H end).
+    - pose proof (try_acquire_path s now) as H. destruct (try_acquire I c s now) as [[b s'] e]. exact H.
+    - pose proof (transition_path s now 1 (b_delay c) ltac:(lia)) as H. destruct (transition I c s now 1 (b_delay c)). exact H.
+    - pose proof (transition_path s now 2 0 ltac:(lia)) as H. destruct (transition I c s now 2 0). exact H.
+    - pose proof (transition_path s now 0 0 ltac:(lia)) as H. destruct (transition I c s now 0 0). exact H.
+    - pose proof (try_acquire_path s now) as H. destruct (try_acquire I c s now) as [[b s1] e1]. cbn [fst snd] in H.
+      destruct b; [|exact H].
+      set (ok := negb (is_failure (b_fpol c) o)).
+      pose proof (record_path s1 now ok (if ok then None else Some (fst o))) as H2.
+      destruct (record I c s1 now ok _) as [s2 e2]. cbn [fst snd] in *.
+      rewrite (events_path_app _ _ _ _ H). exact H2.
+    - reflexivity.
+  Qed.
+
+  (* over a whole history the emitted events form one connected path from the initial state *)
+  Theorem history_events_form_path h : forall s,
+    events_path (state_code s) (flat_map ob_events (brun I c s h)) = Some (state_code (bfinal I c s h)).
+  Proof.
+    induction h as [|[now op] h IH]; intros s; [reflexivity|].
+    cbn [brun bfinal]. unfold bstep.
+    pose proof (step_events_form_path s now op) as H.
+    destruct (bstep_core I c s now op) as [[v s'] e]. cbn [fst snd] in *.
+    cbn [flat_map ob_events]. rewrite (events_path_app _ _ _ _ H). apply IH.
+  Qed.
+End Rules.
+
+(* ------------------------------------------------------------------ *)
+(* F. half-open decides within the trial capacity (documented windows, count-based thresholds) *)
+
+Lemma count_if_partition l : count_if (fun b => b) l + count_if negb l = Z.of_nat (length l).
+Proof.
+  unfold count_if. induction l as [|[t v] l IH]; cbn [filter snd length]; [reflexivity|].
+  destruct v; cbn [negb length]; lia.
+Qed.
+
+Theorem half_open_decides_within_capacity c a p now er :
+  bcfg_ok c = true -> b_frate c = 0 -> (b_fexec c = 0 \/ b_fexec c = b_fcap c) ->
+  (b_sthr c = 0 -> b_scap c = 0) ->
+  a_kind a = WCount (halfopen_capacity c) ->
+  Z.of_nat (length (a_log a)) >= halfopen_capacity c ->       (* capacity results recorded in this state *)
+  state_code (fst (check_threshold abs_impl c (HalfOpen a p) now er)) <> 2.
+Proof.
+  intros Hok Hr Hfe Hss Hk Hlen.
+  unfold bcfg_ok in Hok. repeat (apply andb_true_iff in Hok; destruct Hok as [Hok ?]).
+  cbn [check_threshold abs_impl si_succ si_fail si_exec]. unfold a_window. rewrite Hk.
+  set (w := firstn (Z.to_nat (halfopen_capacity c)) (a_log a)).
+  assert (Hw : Z.of_nat (length w) = halfopen_capacity c).
+  { subst w. rewrite firstn_length. lia. }
+  pose proof (count_if_partition w) as Hp. rewrite Hw in Hp.
+  assert (Hcap : halfopen_capacity c = if b_sthr c =? 0 then b_fcap c else b_scap c).
+  { unfold halfopen_capacity. destruct (b_sthr c =? 0) eqn:E.
+    - destruct (b_scap c =? 0) eqn:E2; cbn [negb]; [|lia].
+      destruct (b_fexec c =? 0) eqn:E3; cbn [negb]; lia.
+    - destruct (b_scap c =? 0) eqn:E2; cbn [negb]; lia. }
+  destruct (b_sthr c =? 0) eqn:Es; cbn [negb].
+  - rewrite Hr. cbn [Z.eqb negb].
+    destruct (b_fcap c - b_fthr c <? count_if (fun b => b) w) eqn:E1.
+    + unfold transition. cbn [state_code]. cbn. lia.
+    + destruct (b_fthr c <=? count_if negb w) eqn:E2; [unfold transition; cbn; lia|lia].
+  - destruct (b_sthr c <=? count_if (fun b => b) w) eqn:E1.
+    + unfold transition. cbn. lia.
+    + destruct (b_scap c - b_sthr c <? count_if negb w) eqn:E2; [unfold transition; cbn; lia|lia].
+Qed.
+
+(* ------------------------------------------------------------------ *)
+(* G. float64 rates: failure rate + success rate never falls below 100, for every window of up to 256 results
+      (finite sweep evaluated by the kernel; this is what makes a rate-based half-open state decide) *)
+Definition rate_pairs (nmax : nat) : list (Z * Z) :=
+  flat_map (fun n => map (fun f => (Z.of_nat f, Z.of_nat n)) (seq 0 (S n))) (seq 1 nmax).
+
+Lemma rate_complement_sweep :
+  forallb (fun p => 100 <=? rate (fst p) (snd p) + rate (snd p - fst p) (snd p)) (rate_pairs 256) = true.
+Proof. vm_compute. reflexivity. Qed.
+
+Lemma rate_pairs_complete nmax f n : (1 <= n <= nmax)%nat -> (f <= n)%nat -> In (Z.of_nat f, Z.of_nat n) (rate_pairs nmax).
+Proof.
+  intros Hn Hf. unfold rate_pairs. apply in_flat_map. exists n. split.
+  - apply in_seq. lia.
+  - apply in_map_iff. exists f. split; [reflexivity|]. apply in_seq. lia.
+Qed.
+
+Theorem rate_complement f n : 1 <= n <= 256 -> 0 <= f <= n -> 100 <= rate f n + rate (n - f) n.
+Proof.
+  intros Hn Hf. pose proof rate_complement_sweep as H. rewrite forallb_forall in H.
+  specialize (H (Z.of_nat (Z.to_nat f), Z.of_nat (Z.to_nat n))
+                (rate_pairs_complete 256 (Z.to_nat f) (Z.to_nat n) ltac:(lia) ltac:(lia))).
+  cbn [fst snd] in H. rewrite !Z2Nat.id in H by lia. lia.
+Qed.
